@@ -478,4 +478,7 @@ def run(ctx):
 
     def extra(dd):
         dd.feed([gen_case(ctx.rng, 40) for _ in range(10 * min(n, 3000))])
+    # shortest failing histories first: they shrink fastest and read best
+    d.oracle_fail.sort(key=lambda x: len(x[0]))
+    d.corr_fail.sort(key=lambda x: len(x[0]))
     d.report(extra)
